@@ -7,6 +7,59 @@ ROOT = os.path.dirname(os.path.dirname(os.path.abspath(__file__)))
 
 # id -> (engine, category, technique, level text, level note, design ref)
 CHECKS = {
+    "C09": ("E1", "exploration",
+            "Hypothesis-generated operation histories against builtin set/dict as reference model, including foreign-typed probes",
+            "SortedSet/SortedMap are built from generated initial collections (empty, unsorted, repeats, dict/pairs/generator) and driven "
+            "by generated histories; after every step iteration order (strictly ascending), content, length, membership, lookup and "
+            "KeyError behaviour are compared with a builtin set/dict. Sampled, not exhaustive.",
+            "Builtin set/dict are the reference; numeric keys only (ints, floats, bools), no NaN content.",
+            "DESIGN.md §4 C09"),
+    "C10": ("E1+E5", "exploration",
+            "bounded-exhaustive enumeration of span-list pairs x 16 relation pairs plus Hypothesis-drawn larger pairs, against a brute-force membership model written from the statement",
+            "All pairs of span lists with <=2 spans over a 4-point grid, with all 16 relation combinations, are enumerated and all 13 "
+            "operators compared with brute-force evaluation of their membership definitions; larger/float-valued pairs are drawn.",
+            "Trusts the brute-force definitions in vf/props/c10.py.",
+            "DESIGN.md §4 C10"),
+    "C11": ("E1", "exploration",
+            "Hypothesis-generated file contents, index sources and read programmes (interleaved iterators and random access) against a Python list of the file's lines",
+            "Generated contents rich in corner cases (CR, multi-byte, long lines, unterminated last line) are written to real files and read "
+            "through all 8 variants with generated programmes of index/slice/iterable/iteration operations, several live iterators "
+            "interleaved with random access, and subset/permutation indexes; every result is compared with list semantics.",
+            "Real file I/O in a scratch directory; PYTHONUTF8=1; memory-mapped variants not given empty files.",
+            "DESIGN.md §4 C11"),
+    "C12": ("E1", "exploration",
+            "Hypothesis-generated edit histories on the four mutable line-file variants against a Python list; byte-exact save oracle; reopen round trip; source hash",
+            "Every MutableSequence operation named in the statement is driven by generated histories with in- and out-of-range indices; "
+            "after each step the view equals a Python list, exceptions have parity, save() bytes are exact for 5 line endings, a saved "
+            "file reopened through both read-only classes equals the list, dirty follows the statement, the source's SHA-256 is unchanged.",
+            "Line contents without line breaks (statement's domain).",
+            "DESIGN.md §4 C12"),
+    "C13": ("E1", "exploration",
+            "Hypothesis-generated records (recursive JSON values; CSV/TSV fields with delimiters, quotes, blanks) through save/load round trips and record-file edit histories",
+            "Round trip load(save(r))==r and single-line-ness for 8 record classes used alternately (shared writer buffer), record files "
+            "read by index/slice/iteration through both variants, mutable record files edited, saved and reopened.",
+            "Field values restricted to the statement's domains (finite floats, no line breaks in CSV/TSV strings).",
+            "DESIGN.md §4 C13"),
+    "C15": ("E1+E5", "exploration",
+            "bounded-exhaustive enumeration (all arrival permutations x drain masks; all put/clear sequences) plus Hypothesis-drawn scripts against the longest-complete-prefix definition",
+            "All permutations of n<=6 (7 thorough) arrivals with all drain masks and all put/clear sequences of length<=8 for capacities "
+            "1..4 are enumerated; scripts with overwrite, already-emitted positions, flush/clear at any point are drawn. Emitted "
+            "sequence, waiting_for, len, printed output and ring content are compared after every step.",
+            "Trusts the small models in vf/props/c15.py written from the docstrings.",
+            "DESIGN.md §4 C15"),
+    "C16": ("E1+E5", "exploration",
+            "bounded-exhaustive enumeration of interval sets x probe keys plus Hypothesis-drawn maps against linear-scan lookup and pairwise-disjointness",
+            "All ordered selections of <=3 intervals over a 6-point grid (invalid ones included) with all probes (ends, midpoints, outside, "
+            "+-inf) are enumerated; larger maps over ints and dyadic floats are drawn.",
+            "Trusts brute force over pairs / linear scan.",
+            "DESIGN.md §4 C16"),
+    "C17": ("E1+E5", "exploration",
+            "bounded-exhaustive enumeration of score vectors x intervals plus Hypothesis-drawn inputs against itertools.combinations brute force; fuel-bounded consumption",
+            "sorted_combinations output is compared as a multiset with all index combinations, keys non-decreasing, yielded key exact; "
+            "min-combination search equals the brute-force minimal-sum set. All score vectors in {0..3}^n, n<=4, with all intervals are "
+            "enumerated; up to n=9 drawn.",
+            "Monotone keys only (documented precondition).",
+            "DESIGN.md §4 C17"),
     "C06": ("E1+E5", "exploration",
             "Hypothesis-generated operation histories against a candidate-set reference model, line-count fuel as termination oracle, bounded-exhaustive short histories",
             "Generated histories of all mapping operations are run against the real LRUCache and a non-deterministic "
